@@ -256,6 +256,42 @@ def interpret_again(ctx, it, r, text, want_pos, want_trace, name):
             ctx.violation("C20:again:stacktrace-filename", "second reading as %s: stack trace names %r" % (fname2, tl), {"text": text2})
 
 
+# (program text, line of the reported error, lines of the stack-trace entries innermost first)
+FIXED_POSITIONS = [
+    # an error raised by a handler is a new error: it is reported where it arises, not where the handled one arose
+    ("do\n  [1][5]\ncatch all\n  [2][7]\nend", 4, []),
+    ("do\n  error 'E'\ncatch 'E'\n  error 'E'\nend", 4, []),
+    ("do\n  error 'A'\ncatch 'B' 0\ncatch 'A'\n\n  error 'A'\nend", 6, []),
+    ("def work(x)\n  [x][3];\ndef tidy()\n  sublist([1], 'a', 'b');\ndo\n  work(1)\ncatch all\n  tidy()\nend", 4, [4, 8]),
+    ("def work(x)\n  1 / x;\ndef tidy(y)\n\n  2 / y;\ndo\n  work(0)\ncatch 'ERROR'\n  tidy(0)\nend", 5, [5, 9]),
+    ("do\n  1 / 0\nfinally\n\n  [1][9]\nend", 5, []),
+    # every stack-trace entry carries its position, however much text its arguments make
+    ("def render(a, b, c)\n  1 / 0;\n\nrender('%s', '%s',\n  '%s')" % ("x" * 70, "y" * 70, "z" * 70), 2, [2, 4]),
+    ("def connect(a, b, c, d, e, f, g, h, i, j, k, l, m)\n  [a][b];\n\n\nconnect(1, 2, 3, 4, 5, 6, 7, 8, 9, 10, 11, 12, 13)", 2, [5]),
+    ("def outer(t)\n  inner(t, t, t);\ndef inner(p, q, r_)\n  nosuch;\nouter([%s])" % ", ".join("'%s'" % ("w" * 9) for _ in range(30)), 4, [2, 5]),
+    ("def f(m)\n  m['zz'];\nf(<<<%s>>>)" % ", ".join("'k%d' => '%s'" % (i, "v" * 12) for i in range(20)), 2, [3]),
+]
+
+
+def run_fixed_positions(ctx, it):
+    import ckl.functions
+    for text, want_line, want_trace in FIXED_POSITIONS:
+        o = observe(lambda: it.interpret(text, FNAME, ckl.functions.Environment()), 500000)
+        ctx.count("fixed_position_programs")
+        ctx.case(("fixed-position", text), nontrivial=True)
+        if o.kind != "rte":
+            ctx.violation("C20:fixed:fault-not-raised", "%r -> %s %s" % (text[:200], o.kind, core.safe_str(o.exc, 100)), {"text": text})
+            continue
+        pos = o.exc.pos
+        if pos is None or getattr(pos, "filename", None) != FNAME or pos.line != want_line:
+            ctx.violation("C20:fixed:error-line", "%r: the failing construct starts on line %d, reported %s" % (text[:300], want_line, pos), {"text": text})
+        tl = trace_lines(o.exc)
+        if any(fn is None for fn, ln in tl):
+            ctx.violation("C20:fixed:stacktrace-entry-without-position", "%r: stack trace %r" % (text[:200], [str(x)[-60:] for x in o.exc.stacktrace]), {"text": text})
+        elif want_trace and [ln for fn, ln in tl] != want_trace:
+            ctx.violation("C20:fixed:stacktrace-lines", "%r: calls on lines %r, stack trace says %r" % (text[:300], want_trace, tl), {"text": text})
+
+
 def run_long_lines(ctx, it, r):
     """a fault that begins far to the right (columns beyond 2^16 and 2^17) on a very long line: still that line"""
     import ckl.functions
@@ -289,6 +325,7 @@ def run_faults(spec, ctx):
     it, out = core.new_interpreter(secure=True, legacy=True)
     if spec.get("long_lines"):
         run_long_lines(ctx, it, r)
+        run_fixed_positions(ctx, it)
     modes = ["random", "random", "random", "lf", "crlf", "comments", "tabs"]
     for i in range(spec["n"]):
         mode = r.choice(modes)
